@@ -19,8 +19,8 @@ CHECKS = {
  "C03": dict(technique=DBE + "; complete sweeps over all 684 paired EvtGen names as CDecay subject and over alias spellings (every initial letter, both ChargeConj orientations)",
              text="Every file with <=k deviations from the default CDecay scenario (naming, statement order (all 24), source via CopyDecay, Decay for X, missing source, self-conjugate subject, 1..4 CDecay statements, unrelated tables) is parsed with the switch on and off and the whole set of tables is compared with the reference conjugation built from the raw particle data files.",
              note="Bound 2 / 3 deviations; names that are the subject of two CDecay statements and non-involutive ChargeConj tables are outside the space.", ref="3/C03"),
- "C06": dict(technique="complete enumeration of the model-name table: 135 names x 5 contexts, all 30 prefix pairs in both orders, 1044 prefix registrations, user names with regex metacharacters, ~2000 near-miss unknown words (accept/reject oracle on the real parser); plus explicit-state BFS over histories of parser instances in one forked process (registration sets / ModelAlias definitions x model words)",
-             text="All published names, all prefix-related pairs, every proper prefix of a published name registered as a user model, and near-miss unknown words are run through the real parser; accepted texts are compared field by field with the AST, unknown words must raise.",
+ "C06": dict(technique="complete enumeration of the model-name table: 135 names x 5 contexts, all 30 prefix pairs in both orders, 1044 prefix registrations, user names with regex metacharacters, ~2000 near-miss unknown words (accept/reject oracle on the real parser); plus explicit-state BFS over histories of parser instances in one forked process (registration sets / ModelAlias definitions x model words); plus every sequence of <=3 (thorough 4) calls of load_additional_decay_models / grammar / grammar_info / parse on one parser before the final parse x 5 model words",
+             text="All published names, all prefix-related pairs, every proper prefix of a published name registered as a user model, and near-miss unknown words are run through the real parser; accepted texts are compared field by field with the AST, unknown words must make parse() raise. All call sequences on one parser up to the bound: a name registered before a parse() must be accepted by it, whatever was called before.",
              note="Complete over the stated tables; user names ending in a non-word character are outside the space.", ref="3/C06"),
  "C07": dict(technique=DBE + "; complete enumeration of PHOTOS-flag sequences (<=4 flags x 3 positions each), label alphabet and numeric-form sweeps for every statement kind",
              text="Files with 0..3 statements of each of the 14 global statement kinds (colliding names, value forms, positions relative to Decay blocks, repeated lineshape settings, (a,b,a) and verbatim-repeat patterns) within the deviation bound are parsed and every global query is compared, typed, with the reference later-wins semantics; a BFS over histories of files parsed in one forked process (files re-using the same names with other meanings) checks that the answers for a file do not depend on what was parsed before.",
@@ -62,7 +62,7 @@ CHECKS = {
              text="All histories of length <=2 plus all 756 of the form (a, b, a) (length <=3 in thorough) are executed on the real classes; amplitudes, tables and the canonicalised output text of the last call must equal those of the call alone in a fresh interpreter. Fresh interpreters with successive hash seeds must give canonically equal output (and identical text for equal seeds) until all 6 orders of the spin-configuration and spline-array sets have been seen.",
              note="Pool of four option files (partial lines defined differently in two of them, a cartesian twin with equal structure and other numbers, K-matrix, splines); hash-order effects are covered through the permutations they can produce, not all 2^32 seeds.", ref="3/C20"),
  "C14": dict(technique="explicit-state BFS over call histories of the real DescriptorFormat (state hashing on config + hidden per-object state) against a stack reference model; second driver through real with-blocks",
-             text="Every history of create/enter/leave/leave-by-exception/set/invalid-set operations up to the stated length (all histories up to the forced depth, state-hashed beyond) is executed on the real class and compared after every step with a stack model of the format in force; bounded exhaustive, no sampling.",
+             text="Every history of create/enter/leave/leave-by-Exception/leave-by-BaseException/set/invalid-set operations up to the stated length (all histories up to the forced depth, state-hashed beyond) is executed on the real class and compared after every step with a stack model of the format in force; bounded exhaustive, no sampling.",
              note="Bounded by history length and at most 3 context objects; two valid and eight invalid pattern pairs.", ref="3/C14"),
 }
 def main():
